@@ -130,7 +130,7 @@ Qed.
 
 (* every method of the family satisfies the parameter-key hypothesis, except the labelled negative example *)
 Example C17_family_params_distinct :
-  forallb (fun a : japi => forallb (fun m => params_distinct (m_params m)) (a_methods a) && forallb (fun s => params_distinct (s_params s)) (a_subs a)) [api_Plain; api_Ns; api_Dot; api_Glue; api_Raw; api_Spell] = true /\
+  forallb (fun a : japi => forallb (fun m => params_distinct (m_params m)) (a_methods a) && forallb (fun s => params_distinct (s_params s)) (a_subs a)) [api_Plain; api_Ns; api_Dot; api_Glue; api_Raw; api_Spell; api_Ren] = true /\
   map (fun m : method jty => params_distinct (m_params m)) (a_methods api_Neg) = [false; true].
 Proof. vm_compute. split; reflexivity. Qed.
 
@@ -230,4 +230,50 @@ Example C17_witness_option_spellings :
   co_args (run_raw api_Spell b#"spellAlias" (Some b#"[4]") (BReturn (JArr [])) b#"sp_unsubscribeSpell") = Some [Some (JNum (NPos 4)); None; None] /\
   co_handler (run_raw api_Spell b#"sp_coreTail" (Some b#"[7]") (BReturn JNull) []) = Some (Registry.Bind 1 Registry.KAsync) /\
   co_client (run_raw api_Spell b#"sp_coreMid" (Some b#"[""a""]") (BReturn JNull) []) = VErr (err_invalid_params (-32602)%Z).
+Proof. vm_compute. repeat split; reflexivity. Qed.
+
+(* parameters renamed to wire names that JSON must escape or that are not identifiers (trait Ren: a backslash, double quotes, a
+   tab, a single space, non-ASCII letters): every wire name of the family is valid UTF-8 (the hypothesis names_utf8 of the
+   round-trip theorems); the aliases heck derives from such names (backslash, double quote, tab and space separate words; U+00B5 MICRO SIGN
+   capitalises to U+039C; a name without any alphanumeric has the EMPTY alias); the stub writes the key through the string
+   serialiser, so the member key on the wire is the escaped spelling and the server finds its field; any other JSON spelling of
+   the same key is accepted as well, the key that a raw (unescaped) `dir\name` would be read as is not *)
+Example C17_witness_escaped_names :
+  forallb (fun a : japi => forallb (forallb (fun p => utf8_valid (p_name p))) (item_params a)) family = true /\
+  keys_of (Param b#"dir" (Some b#"dir\name") false TyStr) = [b#"dir\name"; b#"dir_name"; b#"dirName"] /\
+  keys_of (Param b#"quoted" (Some b#"say ""hi""") false TyStr) = [b#"say ""hi"""; b#"say_hi"; b#"sayHi"] /\
+  keys_of (Param b#"size" (Some [x67; x72; xc3; xb6; xc3; x9f; x65; x20; x69; x6e; x20; xc2; xb5; x6d]) false TyStr) =
+    [ [x67; x72; xc3; xb6; xc3; x9f; x65; x20; x69; x6e; x20; xc2; xb5; x6d];
+      [x67; x72; xc3; xb6; xc3; x9f; x65; x5f; x69; x6e; x5f; xc2; xb5; x6d];
+      [x67; x72; xc3; xb6; xc3; x9f; x65; x49; x6e; xce; x9c; x6d] ] /\
+  keys_of (Param b#"column" (Some [x63; x6f; x6c; x09; x75; x6d; x6e]) true TyStr) = [[x63; x6f; x6c; x09; x75; x6d; x6e]; b#"col_umn"; b#"colUmn"] /\
+  keys_of (Param b#"blank" (Some b#" ") false TyStr) = [b#" "; []; []] /\
+  run_stub api_Ren false 0 [JStr b#"x\y"; JNum (NPos 5)] (BReturn (JArr [JNum (NPos 5); JStr b#"x\y"])) =
+    CaseOut (Some (b#"ren_mapBackslash", Some b#"{""dir\\name"":""x\\y"",""plain"":5}"))
+            (Some (Registry.Bind 0 Registry.KSync))
+            (Some [Some (JStr b#"x\y"); Some (JNum (NPos 5))])
+            (VOk (JArr [JNum (NPos 5); JStr b#"x\y"])) /\
+  co_wire (run_stub api_Ren false 1 [JNum (NPos 3); JBool true] (BReturn JNull)) = Some (b#"ren_mapQuote", Some b#"{""say \""hi\"""":3,""plain"":true}") /\
+  co_args (run_stub api_Ren false 1 [JNum (NPos 3); JBool true] (BReturn JNull)) = Some [Some (JNum (NPos 3)); Some (JBool true)] /\
+  co_wire (run_stub api_Ren false 3 [JNum (NPos 3); JNum (NPos 7)] (BReturn JNull)) = Some (b#"ren_mapTab", Some b#"{""plain"":3,""col\tumn"":7}") /\
+  co_args (run_stub api_Ren false 3 [JNum (NPos 3); JNum (NPos 7)] (BReturn JNull)) = Some [Some (JNum (NPos 3)); Some (JNum (NPos 7))] /\
+  co_wire (run_stub api_Ren false 2 [JNum (NPos 1); JNull] (BReturn JNull)) =
+    Some (b#"ren_mapUnicode", Some (b#"{""" ++ [x67; x72; xc3; xb6; xc3; x9f; x65; x20; x69; x6e; x20; xc2; xb5; x6d] ++ b#""":1,""plain"":null}")) /\
+  co_args (run_stub api_Ren false 4 [JStr b#"s"; JNum (NPos 7)] (BReturn JNull)) = Some [Some (JStr b#"s"); Some (JNum (NPos 7))] /\
+  co_args (run_stub api_Ren true 0 [JStr b#"d"; JNum (NPos 1); JNull] (BReturn (JArr []))) = Some [Some (JStr b#"d"); Some (JNum (NPos 1)); None] /\
+  co_args (run_raw api_Ren b#"ren_mapBackslash" (Some b#"{""plain"":5,""dir\u005cname"":""x""}") (BReturn JNull) []) = Some [Some (JStr b#"x"); Some (JNum (NPos 5))] /\
+  co_args (run_raw api_Ren b#"ren_mapBackslash" (Some b#"{""plain"":5,""\u0064ir\\n\u0061me"":""x""}") (BReturn JNull) []) = Some [Some (JStr b#"x"); Some (JNum (NPos 5))] /\
+  co_args (run_raw api_Ren b#"ren_mapBackslash" (Some b#"{""plain"":5,""dirName"":""x""}") (BReturn JNull) []) = Some [Some (JStr b#"x"); Some (JNum (NPos 5))] /\
+  co_client (run_raw api_Ren b#"ren_mapBackslash" (Some b#"{""plain"":5,""dir\name"":""x""}") (BReturn JNull) []) = VErr (err_invalid_params (-32602)%Z) /\
+  co_client (run_raw api_Ren b#"ren_mapBackslash" (Some b#"{""plain"":5,""dir\\\\name"":""x""}") (BReturn JNull) []) = VErr (err_invalid_params (-32602)%Z) /\
+  co_args (run_raw api_Ren b#"ren_mapSpace" (Some b#"{""\u0020"":""s"",""plain"":1}") (BReturn JNull) []) = Some [Some (JStr b#"s"); Some (JNum (NPos 1))] /\
+  co_args (run_raw api_Ren b#"ren_mapSpace" (Some b#"{"""":""s"",""plain"":1}") (BReturn JNull) []) = Some [Some (JStr b#"s"); Some (JNum (NPos 1))] /\
+  co_client (run_raw api_Ren b#"ren_mapSpace" (Some b#"{""  "":""s"",""plain"":1}") (BReturn JNull) []) = VErr (err_invalid_params (-32602)%Z) /\
+  co_args (run_raw api_Ren b#"ren_mapTab" (Some b#"{""plain"":1,""col\u0009umn"":2}") (BReturn JNull) []) = Some [Some (JNum (NPos 1)); Some (JNum (NPos 2))] /\
+  co_args (run_raw api_Ren b#"ren_mapTab" (Some b#"{""plain"":1,""col umn"":2}") (BReturn JNull) []) = Some [Some (JNum (NPos 1)); None] /\
+  co_args (run_raw api_Ren b#"ren_mapUnicode" (Some b#"{""gr\u00f6\u00dfe in \u00b5m"":1}") (BReturn JNull) []) = Some [Some (JNum (NPos 1)); None] /\
+  co_args (run_raw api_Ren b#"ren_mapUnicode" (Some b#"{""gr\u00f6\u00dfeIn\u039cm"":1}") (BReturn JNull) []) = Some [Some (JNum (NPos 1)); None] /\
+  co_client (run_raw api_Ren b#"ren_mapUnicode" (Some b#"{""gr\u00f6\u00dfeIn\u00b5m"":1}") (BReturn JNull) []) = VErr (err_invalid_params (-32602)%Z) /\
+  co_args (run_raw api_Ren b#"ren_mapQuoteOnly" (Some b#"{""\"""":1}") (BReturn JNull) []) = Some [Some (JNum (NPos 1)); None] /\
+  co_args (run_raw api_Ren b#"ren_mapQuoteOnly" (Some b#"{""\u0022"":1}") (BReturn JNull) []) = Some [Some (JNum (NPos 1)); None].
 Proof. vm_compute. repeat split; reflexivity. Qed.
